@@ -14,7 +14,8 @@ func init() {
 		id:         "C05",
 		title:      "operator results for every combination of operand kinds",
 		run:        runC05,
-		decided:    "which Go operation, on which operands in which order, under which guard, each operator arm of the evaluator performs (operator table extracted per operator tag with a may-set analysis over the tag tests and compared, as normalised dataflow, with the documented table): dispatch is exhaustive for every operator tag the parser can put on a node; comparisons map to Compare(left, right) ⊙ 0 with the unset special case; arithmetic uses the numeric coercions in (left, right) order, + concatenates string forms when either operand is a string; the divide-by-zero guards test the (truncated) divisor only and dominate the division; && and || evaluate the right operand only on the documented edge and yield booleans; `is` type names map to the matching tags; ~ / !~ compile the right operand's text and match the left operand's string form; the coercion tables isTruthy / asFloat64 / String / Compare.",
+		decided:    "which Go operation, on which operands in which order, under which guard, each operator arm of the evaluator performs (operator table extracted per operator tag with a may-set analysis over the tag tests and compared, as normalised dataflow, with the documented table): dispatch is exhaustive for every operator tag the parser can put on a node; comparisons map to Compare(left, right) ⊙ 0 with the unset special case; arithmetic uses the numeric coercions in (left, right) order, + concatenates string forms when either operand is a string; the divide-by-zero guards test the (truncated) divisor only and dominate the division; && and || evaluate the right operand only on the documented edge and yield booleans; `is` type names map to the matching tags; ~ / !~ compile the right operand's text and match the left operand's string form; the coercion tables isTruthy / asFloat64 / String / Compare." +
+			" Every operand is the result of evalExpr on the node's own child, left before right; a value that went through copyValue keeps its kind and payload.",
 		notDecided: "IEEE results, strings.Compare and RE2 semantics (trusted libraries), i.e. the numerical table itself.",
 	})
 }
